@@ -14,6 +14,8 @@ results do not depend on scratch contents), C04 (reach of a step), C14 (see c_sy
 import contextlib
 import itertools
 import sys
+
+import numpy as np
 from fractions import Fraction as Fr
 
 from svx.contract import and_, ite_, not_, or_, sin_, unit
@@ -94,15 +96,22 @@ def check_stable_timestep_forwarding(K, sim, dim, dx, nu, cfl):
     """C16 at the simulator level: compute_stable_timestep(dt_prefac) must hand the WHOLE velocity
     field, a grid-shaped scratch array, the simulator's dx / cfl / viscosity / dimension to the
     (separately proved) compute_advection_diffusion_stable_timestep and scale its result by dt_prefac."""
-    from svx.field import _same_spec
-    from svx.sym import Sym
+    sym = K.mode == "sym"
     calls = []
-    ret = Sym.R("stable_dt_of_callee")
+    if sym:
+        from svx.field import _same_spec
+        from svx.sym import Sym
+        ret = Sym.R("stable_dt_of_callee")
+    else:
+        ret = 0.37109375  # replay on the compiled code: the callee is recorded the same way, with real arrays
 
     def summary(**kw):
         calls.append(kw)
         return ret
 
+    import importlib
+    for m in FLOW_MODS:
+        importlib.import_module(m)
     mods = [sys.modules[m] for m in FLOW_MODS if hasattr(sys.modules[m], "compute_advection_diffusion_stable_timestep")]
     saved = [(m, m.compute_advection_diffusion_stable_timestep) for m in mods]
     prefac = K.real("dt_prefac", pos=True)
@@ -118,11 +127,17 @@ def check_stable_timestep_forwarding(K, sim, dim, dx, nu, cfl):
         return
     kw = calls[0]
     v = kw.get("velocity_field")
-    whole = v is not None and v.buf is sim.velocity_field.buf and _same_spec(v.spec, sim.velocity_field.buf.full_view().spec)
-    K.ensures("stable_timestep_sees_the_whole_velocity_field", whole, props=("C16",))
     mag = kw.get("velocity_magnitude_field")
-    ok_mag = mag is not None and mag.buf is not sim.velocity_field.buf and mag.ndim == dim and all(
-        S_(a).same(S_(b)) for a, b in zip(mag.shape, sim.velocity_field.shape[1:]))
+    if sym:
+        whole = v is not None and v.buf is sim.velocity_field.buf and _same_spec(v.spec, sim.velocity_field.buf.full_view().spec)
+        ok_mag = mag is not None and mag.buf is not sim.velocity_field.buf and mag.ndim == dim and all(
+            S_(a).same(S_(b)) for a, b in zip(mag.shape, sim.velocity_field.shape[1:]))
+    else:
+        u = sim.velocity_field
+        whole = (isinstance(v, np.ndarray) and v.shape == u.shape and v.strides == u.strides
+                 and v.__array_interface__["data"][0] == u.__array_interface__["data"][0])
+        ok_mag = isinstance(mag, np.ndarray) and mag.shape == u.shape[1:] and not np.shares_memory(mag, u)
+    K.ensures("stable_timestep_sees_the_whole_velocity_field", whole, props=("C16",))
     K.ensures("stable_timestep_scratch_is_grid_shaped_and_disjoint", ok_mag, props=("C16",))
     K.ensures_eq("stable_timestep_dx", kw.get("dx"), dx, props=("C16",))
     K.ensures_eq("stable_timestep_viscosity", kw.get("kinematic_viscosity"), nu, props=("C16",))
@@ -272,8 +287,7 @@ def navier_stokes_2d_time_step(K, with_forcing, with_free_stream, width):
                                    with_free_stream_flow=with_free_stream, flow_density=rho, penalty_zone_width=width))
         dx = L / nx
         K.ensures_eq("dx_is_x_range_over_nx", sim.dx, dx)
-        if sym:
-            check_stable_timestep_forwarding(K, sim, 2, dx, nu, cfl)
+        check_stable_timestep_forwarding(K, sim, 2, dx, nu, cfl)
         # arbitrary public state, garbage scratch
         w0 = set_state(K, sim.vorticity_field, "vorticity0")
         u0 = set_state(K, sim.velocity_field, "velocity0")
@@ -384,8 +398,7 @@ def navier_stokes_3d_time_step(K, with_forcing, with_free_stream, width, filt, s
                                    poisson_solver_type=solver, **kwargs))
         dx = L / nx
         K.ensures_eq("dx_is_x_range_over_nx", sim.dx, dx)
-        if sym:
-            check_stable_timestep_forwarding(K, sim, 3, dx, nu, cfl)
+        check_stable_timestep_forwarding(K, sim, 3, dx, nu, cfl)
         w0 = set_state(K, sim.vorticity_field, "vorticity0")
         u0 = set_state(K, sim.velocity_field, "velocity0")
         f0 = set_state(K, sim.eul_grid_forcing_field, "forcing0") if with_forcing else None
@@ -473,8 +486,7 @@ def passive_transport_time_step(K, dim, field_type):
                               dict(kinematic_viscosity=nu, grid_dim=dim, x_range=L, cfl=cfl, time=t0, field_type=field_type))
         dx = L / shape[-1]
         K.ensures_eq("dx_is_x_range_over_nx", sim.dx, dx)
-        if sym:
-            check_stable_timestep_forwarding(K, sim, dim, dx, nu, cfl)
+        check_stable_timestep_forwarding(K, sim, dim, dx, nu, cfl)
         p0 = set_state(K, sim.primary_field, "primary0")
         u0 = set_state(K, sim.velocity_field, "velocity0")
         scratch(K, sim.buffer_scalar_field)
@@ -504,24 +516,33 @@ def init_domain_coordinates(K, dim):
     """the simulators' own cell-centre coordinate field (real FlowSimulator._init_domain): spacing
     dx = x_range / n_x on EVERY axis, x along the LAST array axis, component d of position_field is
     the coordinate of axis d (x = 0), cell centres at (index + 1/2) dx."""
-    if K.mode != "sym":
-        return None
-    from svx.symnp import SymReal64, as_lazy
+    sym = K.mode == "sym"
     shape = tuple(K.ext(n, lo=2) for n in ("nz", "ny", "nx")[3 - dim:])
     L, nu = K.real("x_range", pos=True), K.real("nu", pos=True)
     cls = K.repo("sopht.simulator.flow.passive_transport_flow_simulators:PassiveTransportFlowSimulator")
     K.functions.append("sopht.simulator.flow.flow_simulators:FlowSimulator._init_domain")
-    with symbolic_simulator_modules():
-        sim = cls(kinematic_viscosity=nu, grid_dim=dim, grid_size=shape, x_range=L, real_t=SymReal64, num_threads=1)
+    if sym:
+        from svx.symnp import SymReal64, as_lazy
+        with symbolic_simulator_modules():
+            sim = cls(kinematic_viscosity=nu, grid_dim=dim, grid_size=shape, x_range=L, real_t=SymReal64, num_threads=1)
+        pos = as_lazy(sim.position_field)
+        at = pos.at
+        pshape = pos.shape
+        same = lambda a, b: S_(a).same(S_(b))
+    else:  # replay on the compiled code
+        sim = cls(kinematic_viscosity=nu, grid_dim=dim, grid_size=tuple(int(n) for n in shape), x_range=L, real_t=K.real_t,
+                  num_threads=1)
+        at = lambda idx: float(sim.position_field[tuple(int(i) for i in idx)])
+        pshape = sim.position_field.shape
+        same = lambda a, b: int(a) == int(b)
     dx = L / shape[-1]
     K.ensures_eq("dx_is_x_range_over_nx", sim.dx, dx)
     K.ensures_eq("y_range", sim.y_range, dx * shape[-2])
     if dim == 3:
         K.ensures_eq("z_range", sim.z_range, dx * shape[-3])
-    pos = as_lazy(sim.position_field)
-    K.ensures("position_field_shape", len(pos.shape) == dim + 1 and pos.shape[0] == dim and all(
-        S_(a).same(S_(b)) for a, b in zip(pos.shape[1:], shape)))
+    K.ensures("position_field_shape", len(pshape) == dim + 1 and pshape[0] == dim and all(
+        same(a, b) for a, b in zip(pshape[1:], shape)))
     c = K.cell(shape)
     for d in range(dim):  # component d: x=0 varies along the last array axis
-        K.ensures_eq(f"component_{d}_is_cell_centre_coordinate_of_axis_{'xyz'[d]}", pos.at((d,) + c),
+        K.ensures_eq(f"component_{d}_is_cell_centre_coordinate_of_axis_{'xyz'[d]}", at((d,) + tuple(c)),
                      (c[dim - 1 - d] + Fr(1, 2)) * dx)
